@@ -216,6 +216,27 @@ def handshake_refused(tag):
     return scs
 
 
+def reconnected_handler(tag):
+    """the application's Reconnected handler does real work: (a) it sends a request on the connection (base time again), (b) it takes its
+    time while a request that was issued during the outage waits to be sent again. Neither may block the connection."""
+    scs = []
+    for delay in (0, 40):
+        ss = ("S1", "S2")
+        conn = {"pingMs": [100, 100], "dialDelayMs": delay, "onReconnected": "sendMeta"}
+        steps = prelude(ss, conn) + [{"a": "cut"}, {"a": "await", "ev": "Reconnected", "n": 1, "ms": 4000}, {"a": "sleep", "ms": 300}]
+        steps += probes(ss) + teardown(ss)
+        scs.append({"id": "%s/reconnectedHandler/sends/d%d" % (tag, delay), "kind": "iscp", "conn": conn, "steps": steps})
+        conn = {"pingMs": [100, 100], "dialDelayMs": delay}
+        steps = [{"a": "holdHandler", "mode": "Reconnected", "n": 1, "gate": "rh"}] + prelude(ss, conn)
+        steps += [{"a": "dialPlan", "dial": [{"do": "ok", "gate": "g1"}]}, {"a": "cut"},
+                  {"a": "await", "ev": "Dial", "match": {"n": 2}, "ms": 3000, "must": True},
+                  {"a": "sendMeta", "g": "P1", "tag": 5, "ctxMs": 1500}, {"a": "sleep", "ms": 30}, {"a": "release", "gate": "g1"},
+                  {"a": "await", "ev": "HandlerHeld", "ms": 3000, "must": True}, {"a": "join", "obj": "P1"}, {"a": "release", "gate": "rh"}, {"a": "sleep", "ms": 250}]
+        steps += probes(ss) + teardown(ss)
+        scs.append({"id": "%s/reconnectedHandler/slow/d%d" % (tag, delay), "kind": "iscp", "conn": conn, "steps": steps})
+    return scs
+
+
 def close_during_outage(tag):
     """a stream is closed by the application while the connection is being re-established (the redial is held at a gate): the Close
     returns within its bound, the other streams are resumed and work, the closed stream stays closed."""
